@@ -364,6 +364,44 @@ def run(res, tier, lean, prop="C04", proof_breaks=(), build_log=""):
             if judged:
                 break
         res.notes["failing_input_search_runs"] = searched
+    if prop == "C06" and not judged:
+        # the model's `put` never blocks: that is true of the code only while the observer's event queue is
+        # unbounded.  If it is not, search the real code with a burst that fills it.
+        from watchdog.observers.api import BaseObserver, EventEmitter
+        cap_q = BaseObserver(EventEmitter).event_queue.maxsize
+        res.notes["event_queue_maxsize"] = cap_q
+        if cap_q and cap_q > 0:
+            n_ev = cap_q + 3
+            scn = {"emit": {0: [1 + (i % 2) for i in range(n_ev)]}, "callbacks": {0: [[("unschedule", 0)]]},
+                   "threads": [SETUP + [("stop",), ("join",)]]}
+            run_big = obs_scenario.make_run(scn, max_steps=20 * n_ev + 4000)
+            found = None
+
+            def emitter_first(_s, en):
+                # let the emitter run whenever it can (it fills the queue), then the clients, the dispatcher last
+                for pref in (lambda t: not t.name.isdigit() and not t.name.startswith("D"), lambda t: t.name.isdigit()):
+                    pick = next((t for t in en if pref(t)), None)
+                    if pick is not None:
+                        return pick
+                return en[0]
+
+            runs_big = [run_big(emitter_first)] + list(explore.random_runs(run_big, r, 3, 0.05))
+            for sched, result in runs_big:
+                v = judge_c06(scn, result)
+                if v:
+                    found = (sched, result, v)
+                    break
+            if found:
+                res.violation(f"observer run violates C06 (event queue bounded at {cap_q}: a full queue blocks the emitter while the "
+                              f"dispatcher joins it): {found[2]}",
+                              {"program": "fill-the-queue", "events_emitted": n_ev, "callback": "unschedule(0)",
+                               "stuck": found[1].get("stuck"), "stuck_labels": found[1].get("stuck_labels")},
+                              signature="c06-bounded-queue")
+            else:
+                res.violation(f"correspondence WD.Obs <-> BaseObserver broken: the model's put never blocks, the observer's event "
+                              f"queue is bounded at {cap_q}; a burst of {n_ev} events found no blocked call",
+                              {"correspondence": "WD.Obs.State.putItem (non-blocking) vs EventQueue(maxsize)", "maxsize": cap_q},
+                              no_input=True, signature="c06-bounded-queue-model")
     if judged:
         judged.sort(key=lambda b: len(b[0]))
         groups = {}
